@@ -158,6 +158,9 @@ type Config struct {
 	// SharePlans: the parse callback keeps a plan cache: the PreparedStatement objects it built for a
 	// query text are handed out again to whoever parses the same text (on any connection)
 	SharePlans bool `json:"share_plans,omitempty"`
+	// ViaFields: the authentication strategy and the TLS configuration are not passed as options but
+	// assigned to the exported Server.Auth / Server.TLSConfig fields after NewServer returned
+	ViaFields bool `json:"via_fields,omitempty"`
 	// ExtendTypes registers an extra type (OID 99999) through the ExtendTypes option.
 	ExtendTypes bool `json:"extend_types,omitempty"`
 }
@@ -224,6 +227,10 @@ type Retained struct {
 	Bytes []byte
 	IsStr bool
 	Copy  string
+	// Params: the parameter list a statement function was handed, kept as it is (the slice, not copies
+	// of its elements); ParamCopies: value and format of every element on receipt
+	Params      []wire.Parameter
+	ParamCopies []string
 }
 
 type capturedCtx struct {
@@ -393,6 +400,10 @@ func Start(cfg Config) *Env {
 	if cfg.Version != "" {
 		opts0 = append(opts0, opt{fn: wire.Version(cfg.Version)})
 	}
+	tlsKind := cfg.TLS
+	if cfg.ViaFields {
+		cfg.TLS = "" // (assigned to the field below)
+	}
 	switch cfg.TLS {
 	case "empty":
 		opts0 = append(opts0, opt{fn: wire.TLSConfig(&tls.Config{})})
@@ -401,7 +412,7 @@ func Start(cfg Config) *Env {
 	case "cert13":
 		opts0 = append(opts0, opt{fn: wire.TLSConfig(&tls.Config{Certificates: []tls.Certificate{Cert()}, MinVersion: tls.VersionTLS13})})
 	}
-	if cfg.Auth != nil {
+	if cfg.Auth != nil && !cfg.ViaFields {
 		opts0 = append(opts0, opt{fn: wire.SessionAuthStrategy(wire.ClearTextPassword(e.validate))})
 	}
 	for i := range cfg.MWs {
@@ -474,6 +485,19 @@ func Start(cfg Config) *Env {
 	srv, err := wire.NewServer(parse, opts...)
 	if err != nil {
 		panic(err)
+	}
+	if cfg.ViaFields {
+		if cfg.Auth != nil {
+			srv.Auth = wire.ClearTextPassword(e.validate)
+		}
+		switch tlsKind {
+		case "empty":
+			srv.TLSConfig = &tls.Config{}
+		case "cert":
+			srv.TLSConfig = &tls.Config{Certificates: []tls.Certificate{Cert()}, MinVersion: tls.VersionTLS12}
+		case "cert13":
+			srv.TLSConfig = &tls.Config{Certificates: []tls.Certificate{Cert()}, MinVersion: tls.VersionTLS13}
+		}
 	}
 	e.Srv = srv
 	e.serveDone = make(chan error, 1)
@@ -770,6 +794,14 @@ func (e *Env) CheckRetained() (int, string) {
 	e.mu.Lock()
 	defer e.mu.Unlock()
 	for i, r := range e.retained {
+		if r.Params != nil {
+			for j, p := range r.Params {
+				if now := fmt.Sprintf("%d:%v:%s", p.Format(), p.Value() == nil, p.Value()); now != r.ParamCopies[j] {
+					return len(e.retained), fmt.Sprintf("retained parameter list #%d (conn %d): element %d changed: now %q, was %q", i, r.Conn, j, clip(now), clip(r.ParamCopies[j]))
+				}
+			}
+			continue
+		}
 		if r.IsStr {
 			if r.Str != r.Copy {
 				return len(e.retained), fmt.Sprintf("retained %s #%d (conn %d) changed: now %q, was %q", r.What, i, r.Conn, clip(r.Str), clip(r.Copy))
@@ -984,6 +1016,15 @@ func (e *Env) stmtFn(query string, idx int, st Stmt) wire.PreparedStatementFn {
 			}
 		}()
 		ev := Event{Conn: id, K: "stmt", Q: query, ID: st.ID, Idx: idx, NPar: len(params), Ctx: e.observe(ctx, true), Out0: e.outLen(ctx)}
+		if e.Cfg.Retain && len(params) > 0 {
+			r := Retained{What: "parameter-list", Conn: id, At: e.Clock.Now(), Params: params}
+			for _, p := range params {
+				r.ParamCopies = append(r.ParamCopies, fmt.Sprintf("%d:%v:%s", p.Format(), p.Value() == nil, p.Value()))
+			}
+			e.mu.Lock()
+			e.retained = append(e.retained, r)
+			e.mu.Unlock()
+		}
 		for i, p := range params {
 			v := p.Value()
 			po := ParamObs{Nil: v == nil, Val: append([]byte{}, v...), Fmt: int16(p.Format())}
